@@ -20,6 +20,7 @@ func main() {
 	keep := flag.Bool("keep", false, "keep query files")
 	timeout := flag.Float64("timeout", 10, "solver timeout per obligation (s)")
 	own := flag.Bool("ownership", false, "check guarded-by ownership clauses")
+	kindsFlag := flag.String("kinds", "", "dev mode: keep only obligations of these kinds (comma separated)")
 	verif := flag.String("verif", "/verif", "verif root")
 	replayFile := flag.String("replay", "", "replay a recorded violation file")
 	flag.Parse()
@@ -62,8 +63,24 @@ func main() {
 	for _, m := range missing {
 		fmt.Println("MISSING unit", m)
 	}
+	if *own {
+		e.ownershipComplete(pkgPath)
+	}
 	for _, u := range us {
 		e.runUnit(u)
+	}
+	if *kindsFlag != "" {
+		keep := map[string]bool{}
+		for _, k := range strings.Split(*kindsFlag, ",") {
+			keep[k] = true
+		}
+		var kept []*Obligation
+		for _, o := range e.obligations {
+			if keep[o.Kind] || o.Status == "error" {
+				kept = append(kept, o)
+			}
+		}
+		e.obligations = kept
 	}
 	fmt.Fprintf(os.Stderr, "generated %d obligations (%d trivial) on %d paths in %.1fs\n", len(e.obligations), e.trivial, e.paths, time.Since(start).Seconds())
 	e.solveAll()
